@@ -195,10 +195,10 @@ PROPS["C12"] = {
     "technique": "Lean 4 declarative pairwise definition of the experimental (cross-)variogram decided exactly on squared quantities + transcription of the pair loop proved to enumerate every pair once; symmetry and translation invariance as theorems; exact/2^-36 differential correspondence with Vario::computeFromDb on generated data sets and direction specifications",
     "level_text": "Partial proof: pair enumeration of the general algorithm, the exact characterisation of the lag assigned to a pair, symmetry in the variables and translation invariance are theorems; the numbers of pairs (weights), mean distances and variogram values of the library are compared with the pairwise definition evaluated in exact rational arithmetic for each lag (pair weights exactly; values to 2^-36). The VARIOGRAM, ORDER4, POISSON, MADOGRAM and RODOGRAM estimators of the general (non-grid) algorithm are covered (square roots by a rational Newton iteration, compared to 2^-36), with regular lags and irregular classes; the mean of each variable reported by the variogram is compared with the weighted mean of the model.",
     "level_note": "Trusted: Lean kernel + 3 standard axioms; sqrt enters only the comparison of the mean distance (rational Newton enclosure), never a pair/lag decision; configurations with a lag / cone / cylinder decision within 2^-30 of its boundary are skipped and counted; Db::getWeight semantics (undefined weight = 1) is followed.",
-    "rule": "random data sets (1-3D, 3-30 samples on dyadic lattices: regular, random, clustered; 1-3 variables with undefined cells; optional weights and selection), one direction with 2-8 lags of step odd/16 (a quarter of the configurations: irregular classes given by breaks, first break 0 or positive, sometimes a duplicated location), distance tolerance in {1/2,1/4,3/8}, angular tolerance in {90,70,50,35,20} degrees, lattice direction vectors, optional bench / cylinder; estimator drawn among variogram / order-4 / Poisson / madogram / rodogram; every (ivar,jvar) pair. distinct = distinct request line; trivial = fewer than 3 active samples",
+    "rule": "random data sets (1-3D, 3-30 samples on dyadic lattices: regular, random, clustered; 1-3 variables with undefined cells; optional weights and selection), one direction with 2-8 lags of step odd/16 (a quarter of the configurations: irregular classes given by breaks, first break 0 or positive, sometimes a duplicated location), distance tolerance in {1/2,1/4,3/8}, angular tolerance in {90,70,50,35,20} degrees, lattice direction vectors, optional bench / cylinder; estimator drawn among variogram / order-4 / Poisson / madogram / rodogram; every (ivar,jvar) pair; plus 60 (quick) / 600 (thorough) small grids (2-3 D, undefined cells, optional weights and selection): grid-specialised algorithm along a node increment (axis, diagonal, knight move) against the general algorithm along the same direction with tight tolerances, pair weights exactly, distances and values to 2^-36. distinct = distinct request line; trivial = fewer than 3 active samples",
     "trivial": lambda line: False,
     "trusted_base": TB_COMMON,
-    "uncovered": ["asymmetric estimators (covariance, covariogram) and general increments", "grid-specialised algorithm, vmap, vcloud", "dates, codes", "permutation invariance is exercised through the unsorted input order only"],
+    "uncovered": ["asymmetric estimators (covariance, covariogram) and general increments", "the grid-specialised algorithm is compared with the general one on the library (not modelled); vmap, vcloud", "dates, codes", "permutation invariance is exercised through the unsorted input order only"],
     "assumptions": ["boundary decisions excluded by exact margins"],
 }
 
@@ -316,7 +316,7 @@ PROPS["C10"] = {
     "technique": "Lean 4 refinement proofs + a translator: the table of the member functions of VectorT / VectorNumT (writes the shared buffer? detaches first? const member handing out mutable access?) is regenerated from the headers at every run and the premises of the refinement are decided on it (every writer detaches before its first access, const members only read, the only escapes are the two of known finding F73); (a) the copy-on-write vector (VectorT: shared buffers, detach before every mutator) refines plain value semantics for every operation sequence on any number of handles (invariant + commuting abstraction, induction over the history); (b) a lazily evaluated calculator with per-input cache invalidation answers, after any history of updates and queries, as a fresh object with the final inputs (coherence invariant); (c) the random stream after a positive seed depends on the seed only. Correspondence: random operation sequences on real VectorInt handles compared with the model; every scenario of the library run in a fresh child process and in a child that first executes a random prelude of other successful / failing calls; incremental vs fresh objects; copies vs sources",
     "level_text": "Partial proof: value semantics of the copy-on-write vector, history-independence of a cache-invalidating calculator and seed-determinism are theorems (all histories); that the real objects behave like these models is checked by correspondence: VectorInt against the model (operation sequences), KrigingCalcul / NeighMoving / Model setters as instances of the memo pattern (incremental vs fresh), and 8 library scenarios (kriging, cross-validation, simulations, variogram, optimised covariance matrices, random laws) fresh vs after a random prelude in separate processes.",
     "level_note": "Trusted: Lean kernel + 3 standard axioms; static/global state of the library is not enumerated by a translator: it is probed through the prelude runs only; documented global options (default space, file prefix) are restored by the prelude. Known finding F73: writable references taken before a copy.",
-    "rule": "1500 (quick) / 20000 (thorough) operation sequences of length 2-14 on up to 14 handles (new, copy, assign, set through operator[] / setAt / at / iterator, push_back, resize, swap, clear, fill, insert, remove, push_front, front / back, operator<<); 40 / 400 worlds x 8 scenarios fresh vs after 2-6 prelude calls drawn among 10 kinds (2 of them failing); per world: incremental KrigingCalcul over 4 targets, re-used moving neighbourhood forwards and backwards, model edited after use, Model and Db copies. distinct = distinct request line",
+    "rule": "1500 (quick) / 20000 (thorough) operation sequences of length 2-14 on up to 14 handles (new, copy, assign, set through operator[] / setAt / at / iterator, push_back, resize, swap, clear, fill, insert, remove, push_front, front / back, operator<<); a third as many sequences on VectorDouble handles (copies, assignments, and six in-place helpers of VectorHelper: addInPlace, subtractInPlace, multiplyInPlace, multiplyConstant, addConstant, cumulateInPlace); 40 / 400 worlds x 8 scenarios fresh vs after 2-6 prelude calls drawn among 10 kinds (2 of them failing); per world: incremental KrigingCalcul over 4 targets, re-used moving neighbourhood forwards and backwards, model edited after use, Model and Db copies. distinct = distinct request line",
     "trivial": lambda line: False,
     "trusted_base": TB_COMMON + ["fork-based isolation of the fresh / after-prelude runs"],
     "uncovered": ["the translator reads the headers syntactically (comment stripping, brace matching, regular expressions): a write to the buffer through an alias it does not recognise would be missed by the table and seen only by the correspondence run", "global state not reached by the prelude kinds", "multi-threaded use (OpenMP paths run with one thread)", "objects other than Db / Model / KrigingCalcul / NeighMoving for copy and incremental checks"],
@@ -359,7 +359,7 @@ PROPS["C18"] = {
     "technique": "Lean 4 theorems (Mathlib matrices, any dimension): an orthogonal change of coordinates followed by its transpose is the identity and preserves norms; variables -> factors -> variables is the identity whenever the back-transformation is a left inverse of the forward one (centring included); factors built from an orthonormal eigen-basis scaled by inverse square roots of the eigenvalues have the identity as covariance; ranks are monotone; exact orthogonality table of the Hermite polynomials below degree 12 (integer arithmetic on Gaussian moments). Correspondence on the library: Hermite values against the model's recurrence, rotations, PCA and MAF round trips and whitening, normal-score monotonicity, Hermite and empirical anamorphosis raw -> Gaussian -> raw and monotonicity inside the reported practical interval, all judged by the Lean driver",
     "level_text": "Partial proof: the linear-algebra identities behind rotations and factor transforms and the monotonicity of ranks are theorems; Hermite orthogonality E[He_m He_n] = n! delta_mn is a theorem for every pair of degrees (Stein identity on the moment functional, induction), and the recurrence values compared with the library are the values of these polynomials; the anamorphosis inversion is numerical (root finding) and is tied by correspondence only, with the accuracy stated in the harness (1e-3 of the raw range for Hermite, 2e-2 for the empirical anamorphosis).",
     "level_note": "Trusted: Lean kernel + 3 standard axioms; the factor variance is checked with the n-1 divisor used by the library; fitted Hermite anamorphoses that are not increasing inside their practical interval are counted, not judged.",
-    "rule": "per configuration: Hermite polynomial values at a random dyadic y for 1-14 degrees; 2-D / 3-D rotation with random angles (direct/inverse both ways, norm); 30-80 samples of 2-4 correlated variables: PCA and MAF (factors centred, unit variance, uncorrelated, Z->F->Z); normal scores; Hermite (10-40 polynomials) and empirical (30-100 classes) anamorphoses fitted on 200 skewed values, 12 round trips each. distinct = distinct request line",
+    "rule": "per configuration: Hermite polynomial values at a random dyadic y for 1-14 degrees; 2-D / 3-D rotation with random angles (direct/inverse both ways, norm); 30-80 samples of 2-4 correlated variables: PCA and MAF (factors centred, unit variance, uncorrelated, Z->F->Z); normal scores (monotone; with a quarter of the samples undefined and optional weights: equal to the scores of the defined samples alone; unchanged by equal weights; symmetric about 0); Hermite (10-40 polynomials) and empirical (30-100 classes) anamorphoses fitted on 200 skewed values, 12 round trips each. distinct = distinct request line",
     "trivial": lambda line: False,
     "trusted_base": TB_COMMON,
     "uncovered": ["accuracy of the numerical inversion is a stated tolerance, not a theorem", "discrete anamorphoses (DD, IR), change of support"],
@@ -380,7 +380,7 @@ PROPS["C15"] = {
     "technique": "Lean 4 theorems: the two forms of the precision operator agree for every shift operator, polynomial and vector ((Lambda p(S) Lambda) v = Lambda Horner(p,S)(Lambda v), Mathlib matrices, any size), a symmetric S gives a symmetric Q, and the executable polynomial of the driver is the Mathlib one (bridge); barycentric weights of segments and triangles sum to one, reproduce affine functions and are non-negative inside the element (all non-degenerate elements, all points); Gram-type matrices are symmetric with a non-negative quadratic form (any size). Correspondence / certificates on the library: each row of the projection matrix (turbo meshes 1-3 D incl. rotated, explicit triangulations) is checked in exact arithmetic (weights >= 0, sum 1, coordinates reproduced, empty row outside); matrix-free precision operator vs assembled sparse matrix on random vectors; exact symmetric-positive-definite certificate of the assembled precision matrix; exact residual of the sparse Cholesky solve; SPDE kriging through Cholesky vs the iterative solver",
     "level_text": "Partial proof: the equality of the explicit and matrix-free forms of the precision operator is a theorem for all sizes and degrees, and the library's assembled matrix Q and its matrix-free evaluation are compared with the model recomputed in exact arithmetic from the exported S, Lambda and coefficients (meshes up to 30 apices); the projection weights' properties are theorems for 1-D and 2-D elements (3-D tetrahedra are exercised, not proved); symmetry / positivity of Gram forms is a theorem, that the library's precision matrix is of that form is certified per instance (exact LDLt); operator / solver agreements are differential runs on generated meshes and Matern models.",
     "level_note": "Trusted: Lean kernel + 3 standard axioms; exact rational certificate checkers (LDLt, residual); the agreement Cholesky / iterative kriging is judged at 0.4 % of the largest estimate (the iterative solver stops at its own tolerance); log-likelihood through both solvers is compared at 3% (+0.03): known finding F78.",
-    "rule": "per configuration: a turbo mesh (1-D, 2-D possibly rotated, 3-D; 3-6 nodes per axis) or an irregular triangulated strip; 12 points (2 outside) projected; a Matern model with nu + d/2 integer and anisotropic ranges: 3 random vectors through both precision operators, one linear solve with exact residual, SPD certificate (<= 40 apices); 8-15 data kriged through Cholesky and through the iterative solver. distinct = distinct request line",
+    "rule": "per configuration: a turbo mesh (1-D, 2-D possibly rotated, 3-D; 3-6 nodes per axis) or an irregular triangulated strip; 12 points (2 outside) projected; a Matern model with nu + d/2 integer and anisotropic ranges: 3 random vectors through both precision operators, one linear solve with exact residual, SPD certificate (<= 40 apices); 8-15 data kriged through Cholesky and through the iterative solver; the conditional system solved by sparse Cholesky and by the matrix-free conjugate gradient (default options, exact residual recomputed every 3-9 iterations, user initial value), each answer judged by the solver's own stopping rule on the recomputed residual. distinct = distinct request line",
     "trivial": lambda line: False,
     "trusted_base": TB_COMMON + ["exact LDLt / residual certificate checkers"],
     "uncovered": ["the finite-element assembly of S and Lambda from the mesh geometry (only symmetry is checked on the exported matrices)", "tetrahedral weights (exercised only)", "multi-variable / multi-structure conditional operators", "meshes on the sphere"],
@@ -406,7 +406,7 @@ PROPS["C14"] = {
     "technique": "Lean 4 theorems on the second-order algebra shared by the simulators (covariance of a linear image of a white noise = A At, positive semi-definite; simulation through the Cholesky factor of a precision matrix has covariance Q^-1; the turning-band mixing matrix V diag(sqrt lambda) reproduces the matrix of sills and the transposed variant does not; normalisation by 1/sqrt(nbands)) and on the congruential generator over ALL seeds (exact equidistribution of the k-th draw, supports of the uniform laws); deterministic certificates in exact rational arithmetic on the library's own linear maps (dense Cholesky, sparse-Cholesky and Chebyshev SPDE simulators applied to the unit vectors; turning-band mixing coefficients and normalisation observed through a guarded hook); Monte-Carlo correspondence for the laws themselves: empirical means / (cross-)covariances of turning bands (points and grids, 1-3 variables, nested anisotropic structures), FFT, spectral simulations and of 20 basic random laws, judged at 6 standard deviations by the Lean driver",
     "level_text": "Partial proof: what is algebra is a theorem (every size) and is tied to the library by exact certificates on its own matrices; that the simulated fields have the law of the model (turning-band, FFT and spectral constructions; rejection samplers of Law.cpp) is a statistical statement which no executable model can carry: it is examined on fixed-size samples (1500 / 6000 realisations per configuration, 60 000 / 400 000 draws per law) with an acceptance band of 6 standard deviations computed from the Gaussian fourth-moment formula (sample fourth moment for the laws), decided in exact arithmetic.",
     "level_note": "Trusted: Lean kernel + 3 standard axioms; the published turning-band / spectral / circulant-embedding representations (not proved); the Monte-Carlo part can only refute: a deviation smaller than the sampling error of the chosen sample size is not seen. Known finding F84 (turning-band mixing matrix uses the eigenvectors by rows: wrong cross-covariances for 2+ variables) is reported on the current tree; F83, F85-F90 were repaired.",
-    "rule": "17 law checks (support, mean, variance) + per configuration (8 quick / 60 thorough; 1-3 D): turning bands of a 1-3 variable nested model (9 structure kinds, anisotropy + rotation, 60-200 bands) on 5 points or a small (possibly rotated) grid: count of realisations, mixing certificate per structure, normalisation, means and all (cross-)covariances of up to 6 points; FFT on a 12 / 6x6 / 4x4x4 grid (4 structure kinds, anisotropic): 5 nodes; spectral simulation (4 kinds): 5 points; dense Cholesky (precision and covariance forms) on 3-7 points; SPDE Matern operators on a 5-16 node mesh (sparse Cholesky exact, Chebyshev within 1/32). distinct = distinct request line",
+    "rule": "17 law checks (support, mean, variance) + per configuration (8 quick / 60 thorough; 1-3 D): turning bands of a 1-3 variable nested model (9 structure kinds, anisotropy + rotation, 60-200 bands) on 5 points or a small (possibly rotated) grid: count of realisations, mixing certificate per structure, normalisation, means and all (cross-)covariances of up to 6 points; FFT on a 12 / 6x6 / 4x4x4 grid (4 structure kinds, anisotropic): 5 nodes; spectral simulation (4 kinds): 5 points; dense Cholesky (precision and covariance forms) on 3-7 points; SPDE Matern operators on a 5-16 node mesh (sparse Cholesky exact, Chebyshev within 1/32); the turning-band pool holds spherical, exponential, Gaussian, cubic, Matern 3/8, 3/16, 1/2, 3/2, stable 1/2, 3/4, 3/2 and cardinal sine, and the first two configurations of every run are a lone Matern structure of smoothness 3/8 and 3/16 (mixture of exponentials with a Beta scale). distinct = distinct request line",
     "trivial": lambda line: False,
     "trusted_base": TB_COMMON + ["observation hook (commit f14078153, guarded by GSTLEARN_VERIF, add-only)", "Gaussian fourth-moment formula for the variance of an empirical covariance (turning-band fields with >= 60 bands are close to Gaussian; the band is 6 standard deviations wide)"],
     "uncovered": ["the law of the simulated fields beyond its first two moments", "that each 1-D band process has the turning-band covariance of its structure (observed through the Monte-Carlo run only)", "SPDE simulation end to end (mesh discretisation error is not a property of the code)", "simulations on the sphere, substitution / Boolean / plurigaussian simulators", "the std::mt19937 'new style' generator"],
